@@ -576,6 +576,19 @@ func c06directed(c *mon.Ctx) {
 			return model.If(model.Bin(model.OEq, a, lx), model.Bin(model.OEq, b, lx), model.Lit(model.Bool(true)))
 		}},
 		{"[a].containsAll([b])", func(a, b *model.Expr) *model.Expr { return model.Bin(model.OContainsAll, model.SetE(a), model.SetE(b)) }},
+		// a set that holds an unknown, compared as a whole with a SMALLER known set: sets
+		// deduplicate, so the completion that repeats the known member makes them equal
+		{"context.set == [Y]", func(a, b *model.Expr) *model.Expr { return model.Bin(model.OEq, model.Access(ctx, "set"), model.Lit(model.Set(Y))) }},
+		{"context.set != [Y]", func(a, b *model.Expr) *model.Expr { return model.Bin(model.ONe, model.Access(ctx, "set"), model.Lit(model.Set(Y))) }},
+		{"[Y] == context.set || a == b", func(a, b *model.Expr) *model.Expr {
+			return model.Bin(model.OOr, model.Bin(model.OEq, model.SetE(model.Lit(Y)), model.Access(ctx, "set")), model.Bin(model.OEq, a, b))
+		}},
+		{"{s: context.set} == {s: [Y]}", func(a, b *model.Expr) *model.Expr {
+			return model.Bin(model.OEq, model.RecE([]string{"s"}, []*model.Expr{model.Access(ctx, "set")}), model.Lit(model.Rec("s", model.Set(Y))))
+		}},
+		{"context.sets == [[Y]]", func(a, b *model.Expr) *model.Expr { return model.Bin(model.OEq, model.Access(ctx, "sets"), model.Lit(model.Set(model.Set(Y)))) }},
+		{"[a, X] == [X]", func(a, b *model.Expr) *model.Expr { return model.Bin(model.OEq, model.SetE(a, lx), model.SetE(lx)) }},
+		{"[a, b, X] != [X]", func(a, b *model.Expr) *model.Expr { return model.Bin(model.ONe, model.SetE(a, b, lx), model.SetE(lx)) }},
 	}
 	type dcase struct {
 		sh            shape
